@@ -11,6 +11,7 @@ import (
 	"strconv"
 	"strings"
 
+	"github.com/projectcalico/calico/felix/cachingmap"
 	"github.com/projectcalico/calico/felix/deltatracker"
 
 	"verif/harness/rt"
@@ -163,7 +164,76 @@ func (s setTrk) Repl(items []kv, fail bool) error {
 	})
 }
 
+// mockDP is the dataplane map behind the real CachingMap: writes fail for the keys in failUpd /
+// failDel, Load fails when loadFail is set, Delete of an absent key returns errNotExists.
+type mockDP struct {
+	m                map[int]val
+	failUpd, failDel map[int]bool
+	loadFail         bool
+	writes           int
+}
+
+var errWrite = errors.New("write failed")
+var errNotExists = errors.New("not exists")
+var errLoad = errors.New("load failed")
+
+func (d *mockDP) Update(k int, v val) error {
+	if d.failUpd[k] {
+		return errWrite
+	}
+	d.m[k] = v
+	d.writes++
+	return nil
+}
+func (d *mockDP) Delete(k int) error {
+	if d.failDel[k] {
+		return errWrite
+	}
+	if _, ok := d.m[k]; !ok {
+		return errNotExists
+	}
+	delete(d.m, k)
+	d.writes++
+	return nil
+}
+func (d *mockDP) Load() (map[int]val, error) {
+	if d.loadFail {
+		return nil, errLoad
+	}
+	out := map[int]val{}
+	for k, v := range d.m {
+		out[k] = v
+	}
+	return out, nil
+}
+func (d *mockDP) ErrIsNotExists(err error) bool { return err == errNotExists }
+
+// mockBatchedDP additionally implements DataplaneBatchedMap: items are applied in order up to the first failure.
+type mockBatchedDP struct{ *mockDP }
+
+func (d mockBatchedDP) BatchUpdate(ks []int, vs []val) (int, error) {
+	for i := range ks {
+		if err := d.Update(ks[i], vs[i]); err != nil {
+			return i, err
+		}
+	}
+	return len(ks), nil
+}
+func (d mockBatchedDP) BatchDelete(ks []int) (int, error) {
+	for i := range ks {
+		if err := d.Delete(ks[i]); err != nil {
+			return i, err
+		}
+	}
+	return len(ks), nil
+}
+
 type state struct {
+	cm      *cachingmap.CachingMap[int, val]
+	mdp     *mockDP
+	cmDes   map[int]val // the property's own desired map for the cachingmap ops
+	cmLoaded bool
+	cmOOB    bool // the backing map was changed behind CachingMap's back since the last load
 	mode    string
 	t       trk
 	eqv     func(a, b val) bool
@@ -368,8 +438,146 @@ func (s *state) mk(p, id int) val {
 	return val{p, id}
 }
 
+func errStr(err error) string {
+	if err != nil {
+		return "err"
+	}
+	return "ok"
+}
+
+func keySet(ws []string) map[int]bool {
+	m := map[int]bool{}
+	for _, x := range ws {
+		m[atoi(x)] = true
+	}
+	return m
+}
+
+func mapKVs(m map[int]val) []kv {
+	var out []kv
+	for k, v := range m {
+		out = append(out, kv{k, v})
+	}
+	return out
+}
+
+// execCM runs the cachingmap ops on the REAL CachingMap over the mock dataplane map.
+func execCM(h *rt.H, s *state, w []string, op string) string {
+	out := "ok"
+	applied := false
+	switch w[0] {
+	case "cmnew":
+		s.mdp = &mockDP{m: map[int]val{}, failUpd: map[int]bool{}, failDel: map[int]bool{}}
+		if w[1] != "0" {
+			s.cm = cachingmap.New[int, val]("verif", mockBatchedDP{s.mdp})
+		} else {
+			s.cm = cachingmap.New[int, val]("verif", s.mdp)
+		}
+		s.cmDes, s.cmLoaded, s.cmOOB = map[int]val{}, false, false
+		return "ok"
+	case "cmdset":
+		k, v := atoi(w[1]), val{atoi(w[2]), atoi(w[3])}
+		s.cm.Desired().Set(k, v)
+		s.cmDes[k] = v
+	case "cmddel":
+		s.cm.Desired().Delete(atoi(w[1]))
+		delete(s.cmDes, atoi(w[1]))
+	case "cmoob":
+		delete(s.mdp.m, atoi(w[1]))
+		s.cmOOB = true
+		h.Count("cm:out-of-band-delete")
+	case "cmddelall":
+		s.cm.Desired().DeleteAll()
+		s.cmDes = map[int]val{}
+	case "cmload":
+		s.mdp.loadFail = w[1] != "0"
+		err := s.cm.LoadCacheFromDataplane()
+		s.mdp.loadFail = false
+		if err == nil {
+			s.cmLoaded = true
+			s.cmOOB = false
+		}
+		out = errStr(err)
+	case "cmau", "cmad", "cmaa":
+		s.mdp.loadFail = w[1] != "0"
+		s.mdp.failUpd, s.mdp.failDel = map[int]bool{}, map[int]bool{}
+		var err error
+		switch w[0] {
+		case "cmau":
+			s.mdp.failUpd = keySet(w[2:])
+			err = s.cm.ApplyUpdatesOnly()
+		case "cmad":
+			s.mdp.failDel = keySet(w[2:])
+			err = s.cm.ApplyDeletionsOnly()
+		default:
+			for _, x := range w[2:] {
+				if strings.HasPrefix(x, "d:") {
+					s.mdp.failDel[atoi(x[2:])] = true
+				} else {
+					s.mdp.failUpd[atoi(x[2:])] = true
+				}
+			}
+			err = s.cm.ApplyAllChanges()
+			applied = err == nil
+		}
+		loadFailed := s.mdp.loadFail && !s.cmLoaded
+		s.mdp.loadFail = false
+		s.mdp.failUpd, s.mdp.failDel = map[int]bool{}, map[int]bool{}
+		if !loadFailed {
+			if !s.cmLoaded {
+				s.cmOOB = false // this apply loaded the cache
+			}
+			s.cmLoaded = true
+		}
+		if err != nil {
+			h.Count("cm:apply-err")
+		}
+		out = errStr(err)
+	case "cmdump":
+		var d, p []kv
+		s.cm.Desired().Iter(func(k int, v val) { d = append(d, kv{k, v}) })
+		s.cm.Dataplane().Iter(func(k int, v val) { p = append(p, kv{k, v}) })
+		out = fmt.Sprintf("D[%s] P[%s] R[%s] loaded=%s", showKVs(d), showKVs(p), showKVs(mapKVs(s.mdp.m)), b2s(s.cmLoaded))
+	default:
+		panic("unknown op " + op)
+	}
+	// oracle on the real code: the desired view is the desired map; once loaded the cached dataplane view IS
+	// the real map (so the tracker reports the exact difference whatever failed); after a successful
+	// ApplyAllChanges the real map equals the desired map
+	got := map[int]val{}
+	s.cm.Desired().Iter(func(k int, v val) { got[k] = v })
+	if fmt.Sprint(showKVs(mapKVs(got))) != fmt.Sprint(showKVs(mapKVs(s.cmDes))) {
+		h.OracleFail("cm-desired", "CachingMap desired view differs from the desired map", map[string]any{"op": op})
+	}
+	if s.cmLoaded && !s.cmOOB {
+		cache := map[int]val{}
+		s.cm.Dataplane().Iter(func(k int, v val) { cache[k] = v })
+		if showKVs(mapKVs(cache)) != showKVs(mapKVs(s.mdp.m)) {
+			h.OracleFail("cm-cache-vs-real", "cached dataplane view differs from the real map after "+w[0],
+				map[string]any{"op": op, "cache": showKVs(mapKVs(cache)), "real": showKVs(mapKVs(s.mdp.m))})
+		}
+	}
+	if applied && !s.cmOOB {
+		if showKVs(mapKVs(s.mdp.m)) != showKVs(mapKVs(s.cmDes)) {
+			h.OracleFail("cm-apply-not-converged", "ApplyAllChanges returned nil but the real map differs from the desired map",
+				map[string]any{"op": op, "real": showKVs(mapKVs(s.mdp.m)), "desired": showKVs(mapKVs(s.cmDes))})
+		}
+		before := s.mdp.writes
+		if err := s.cm.ApplyAllChanges(); err != nil || s.mdp.writes != before {
+			h.OracleFail("cm-apply-not-idempotent", "a second ApplyAllChanges after a successful one still wrote to the map", map[string]any{"op": op})
+		}
+	}
+	return out
+}
+
 func exec(h *rt.H, s *state, op string) string {
 	w := strings.Fields(op)
+	if strings.HasPrefix(w[0], "cm") {
+		if s.cm == nil && w[0] != "cmnew" {
+			execCM(h, s, []string{"cmnew", "0"}, "cmnew 0")
+		}
+		return execCM(h, s, w, op)
+	}
 	out := "ok"
 	switch w[0] {
 	case "new":
@@ -626,7 +834,55 @@ func (g *gen) replOp(allowDup bool) string {
 	return strings.Join(parts, " ")
 }
 
+func genCMCase(h *rt.H) []string {
+	g := &gen{h: h, nk: rt.Pick(h, []int{2, 3, 5, 8}), np: rt.Pick(h, []int{1, 2, 3})}
+	ops := []string{fmt.Sprintf("cmnew %d", h.Intn(2))}
+	fk := func(tag string) string {
+		var parts []string
+		for i := 0; i < rt.Pick(h, []int{0, 0, 0, 1, 1, 2}); i++ {
+			parts = append(parts, tag+strconv.Itoa(g.key()))
+		}
+		return strings.Join(parts, " ")
+	}
+	lf := func() int {
+		if h.Chance(0.12) {
+			return 1
+		}
+		return 0
+	}
+	n := 4 + h.Intn(28)
+	for i := 0; i < n; i++ {
+		switch h.Intn(14) {
+		case 0, 1, 2, 3, 4:
+			p, id := g.val()
+			ops = append(ops, fmt.Sprintf("cmdset %d %d %d", g.key(), p, id))
+		case 5, 6:
+			ops = append(ops, fmt.Sprintf("cmddel %d", g.key()))
+		case 7:
+			if h.Chance(0.25) {
+				ops = append(ops, fmt.Sprintf("cmoob %d", g.key()))
+			} else if h.Chance(0.3) {
+				ops = append(ops, "cmddelall")
+			} else {
+				ops = append(ops, fmt.Sprintf("cmload %d", lf()))
+			}
+		case 8:
+			ops = append(ops, strings.TrimSpace(fmt.Sprintf("cmau %d %s", lf(), fk(""))))
+		case 9:
+			ops = append(ops, strings.TrimSpace(fmt.Sprintf("cmad %d %s", lf(), fk(""))))
+		case 10, 11:
+			ops = append(ops, strings.TrimSpace(fmt.Sprintf("cmaa %d %s %s", lf(), fk("d:"), fk("u:"))))
+		default:
+			ops = append(ops, "cmdump")
+		}
+	}
+	return append(ops, "cmload 0", "cmaa 0", "cmdump")
+}
+
 func genCase(h *rt.H) []string {
+	if h.Chance(0.2) {
+		return genCMCase(h)
+	}
 	g := &gen{h: h}
 	mode := rt.Pick(h, []string{"p", "p", "p", "d", "d", "s"})
 	g.set = mode == "s"
@@ -708,7 +964,7 @@ func genCase(h *rt.H) []string {
 func main() {
 	h := rt.New()
 	defer h.Close()
-	h.Rule = "case = `new <mode>` (p: valuesEqual on payload only, d: default DeepEqual, s: real SetDeltaTracker) + either 3..32 ops over 1..8 keys " +
+	h.Rule = "20% of cases drive the real cachingmap.CachingMap over a mock dataplane map (plain or batched; desired set/delete/deleteall, load, ApplyUpdatesOnly/ApplyDeletionsOnly/ApplyAllChanges with failing writes on chosen keys and failing loads, dumps incl. the real map); the rest: case = `new <mode>` (p: valuesEqual on payload only, d: default DeepEqual, s: real SetDeltaTracker) + either 3..32 ops over 1..8 keys " +
 		"{dset,pset,ddel,pdel,ddelall,pdelall,repl(ok|failing iterator|4% duplicate keys),uiter,xiter,ubatch,xbatch,gets,dump} or a big case (127..400 keys, range sets, " +
 		"IterBatched across the 128 batch boundary with failing keys and chunk limits); fresh object id per Set; distinct = distinct op sequence; " +
 		"non-trivial = case has a pending update AND a pending deletion at some dump and uses an iterating/replace op"
@@ -717,7 +973,7 @@ func main() {
 		s := &state{}
 		sawPending, sawIter := false, false
 		for _, op := range ops {
-			if s.t == nil && !strings.HasPrefix(op, "new ") {
+			if s.t == nil && !strings.HasPrefix(op, "new ") && !strings.HasPrefix(op, "cm") {
 				// shrunk/replayed case without a leading new: default tracker
 				exec(h, s, "new d")
 			}
